@@ -5,6 +5,7 @@ mod lap;
 mod util;
 mod maps;
 mod algebra;
+mod text;
 use sexp::*;
 use std::io::{BufRead, Write};
 
@@ -21,12 +22,22 @@ fn run_case(x: &Sx) -> Sx {
         "split" => algebra::run_split(&l[1..]),
         "merge" => algebra::run_merge(&l[1..]),
         "bg" => algebra::run_bg(&l[1..]),
+        "fmt" => text::run_fmt(&l[1..]),
+        "parse" => text::run_parse(&l[1..]),
+        "score" => text::run_score(&l[1..]),
+        "read" => text::run_read(&l[1..]),
+        "wr" => text::run_wr(&l[1..]),
+        "skiprun" => text::run_skiprun(&l[1..]),
         k => Sx::L(vec![a("glue-error"), a(format!("unknown-kind-{}", k))]),
     }
 }
 
 fn main() {
     std::panic::set_hook(Box::new(|_| {}));
+    if std::env::args().nth(1).as_deref() == Some("ftab") {
+        text::ftab();
+        return;
+    }
     let stdin = std::io::stdin();
     let stdout = std::io::stdout();
     let mut out = std::io::BufWriter::new(stdout.lock());
